@@ -29,6 +29,7 @@ def run(ctx):
     from . import c02 as _c02
     from .common import AssocModel as _AM
     ctx.shared(_c02.atomic, ctx, _AM(ctx.repo))    # a rejected relate leaves no half link behind for the consistency check to trip over
+    ctx.shared(_c02.delete_rule, ctx)          # delete unlinks every partner, so that no counted partner is a deleted instance
     ctx.assume('Link.navigate returns the partner set of the instance (C02-LINKOPS)')
     return ('Finite truth tables obtained by abstract execution of the source of check_link_integrity, '
             'check_association_integrity, check_subtype_integrity, MetaModel.is_consistent, the null predicate of '
